@@ -254,6 +254,34 @@ def main(ctx):
             funits.append((hd, pt))
     ctx.lattice("inverse-find", funits, one_find, bounds=dict(headers=len(sel), points_per_header=npts + 1))
 
+    # array input to the root finder: the elements are solved one after the other, so anything carried from one
+    # element to the next (a warm start from the previous solution, a reused scratch buffer) shows up only for
+    # particular NEIGHBOURS.  Every ordered pair and a few longer orders of the fixed points, far apart and on
+    # opposite sides of the reference point (which is next to a pole for some headers), as ONE array call.
+    def one_find_array(case, rec):
+        hd, order = case
+        h = mk(hd)
+        w = WCS(dict(h))
+        pts = [FPTS[i] for i in order]
+        X = np.array([p[0] for p in pts])
+        Y = np.array([p[1] for p in pts])
+        rr, dd = W.forward(h, X, Y)
+        try:
+            xb, yb = w.sky2image(np.asarray(rr, dtype="f8"), np.asarray(dd, dtype="f8"))
+        except Exception as e:
+            return rec.fail(case, "sky2image(array) raised %s: %s" % (type(e).__name__, e))
+        e = np.maximum(np.abs(np.asarray(xb) - X), np.abs(np.asarray(yb) - Y))
+        if not np.all(np.isfinite(e)) or e.max() > 1e-6:
+            j = int(np.nanargmax(np.where(np.isfinite(e), e, np.inf)))
+            return rec.fail(case, "sky2image(find=True) on an array: element %d misses its pixel by %.3g px (> 1e-6): got (%r,%r) "
+                                  "for (%r,%r)" % (j, e[j], float(np.asarray(xb)[j]), float(np.asarray(yb)[j]), X[j], Y[j]))
+        rec.ok(case, outcome="find-array:%s/len%d" % (hd[0], len(order)), nontrivial=True, calls=1)
+
+    asel = sel
+    orders = [(i, j) for i in range(6) for j in range(6) if i != j] + [(0, 1, 2, 3, 4, 5), (5, 4, 3, 2, 1, 0), (0, 1, 0, 1), (2, 2, 1)]
+    aunits = [(hd, o) for hd in (asel if not ctx.quick else asel[::2]) for o in (orders if not ctx.quick else orders[::3] + orders[-4:])]
+    ctx.lattice("inverse-find-array", aunits, one_find_array, bounds=dict(headers=len(asel), orders=len(orders)))
+
     # -------------------------------------------------------------- histories
     P = ((100.5, 900.0), (200.25, 1100.0))
     OPS = (("i2s", True), ("i2s", False), ("s2i", True, True), ("s2i", False, True), ("s2i", False, False),
